@@ -5,6 +5,9 @@
   consumption of entropy deliveries.  The hand-model theorems about every history — `TJ.Props.C16.bound_all_histories` (never more than 32·limit bytes between two entropy
   requests), `TJ.Props.C15` (each step is the documented Hash_DRBG step), `TJ.Props.C17` (statuses) — therefore speak about every history of calls on the regenerated code.
   The proof is an induction over the list of operations with the memory invariant `PMI`.
+
+  Second part: the same induction for EITHER entropy source (user callback or `tinyjambu_prng_system`) against the source-level specification `GS`
+  (`history_source_either`, `init_system_then_history`): every history completes without a fault whatever the source delivers — the "usable on failure" clause of C17.
 -/
 import TJ.Props.C15Gen
 import TJ.Props.C16
@@ -221,5 +224,128 @@ theorem init_then_history_source (G : PGeo) (st : St) (X XD : Array LByte) (ioff
   have h32 : p1.rl.toNat = 32 := by rw [hrl]; rfl
   rw [h32] at g4
   exact ⟨fuel, st0, ret, p1, e0, p', e', t, st', hinit, hrun, g1, g2, g3, g4⟩
+
+/-! ### histories with EITHER entropy source (user callback or `tinyjambu_prng_system`), against the source-level specification `GS` -/
+
+def _root_.TJ.MiniC.Hoare.GS.feed (g : GS) (d : Bytes) : GS :=
+  { g with V := hashDf 1 g.V d, C := hashDf 0 (hashDf 1 g.V d) [], rc := if g.rc = 4294967295 then g.rc else g.rc + 1 }
+
+def _root_.TJ.MiniC.Hoare.GS.setLimit (g : GS) (n : Nat) : GS := { g with rl := Hoare.limitBlocks n }
+
+/-- one operation of the source-level specification (with the bytes a `generate` returns) -/
+def _root_.TJ.MiniC.Hoare.GS.runOp (g : GS) : POp → GS
+  | .gen n => (g.loop n).2
+  | .feed d => g.feed d
+  | .reseed => g.reseed
+  | .limit n => g.setLimit n
+
+def _root_.TJ.MiniC.Hoare.GS.runOps (g : GS) (ops : List POp) : GS := ops.foldl GS.runOp g
+
+/-- the memory invariant between two calls, for the callback value `cbv` stored in the object -/
+structure GMI (G : PGeo) (cbv : Nat) (g : GS) (st : St) : Prop where
+  obj : ∃ X, st.mem[G.bp]? = some ⟨X, G.baseP⟩ ∧ X.size = G.xsz ∧ PObjV X g.V g.C g.rc g.rl ∧ PCb X G.ud cbv
+  out : ∃ XD, st.mem[G.bd]? = some ⟨XD, G.based⟩ ∧ XD.size = G.dsz
+  inp : ∃ XI', st.mem[G.bi]? = some ⟨XI', G.basei⟩ ∧ XI'.size = G.XI.size ∧ ∀ q : Nat, ORel VEq XI'[q]? G.XI[q]?
+  ent : st.ent = g.ent
+  msz : st.mem.size = G.msz
+
+theorem callFun3 (f : Nat) (b : Bool) (a1 a2 a3 : LVal) (st : St) :
+    callFun prog (k : Nat) f b [a1, a2, a3] st = exec prog k (.call (if b then some 0 else none) f [.var 1, .var 2, .var 3]) #[(0, .pub), a1, a2, a3] st := by
+  unfold callFun
+  simp only [List.length_cons, List.length_nil, List.range, List.range.loop, List.map, Nat.zero_add]
+
+/-- **one call, either source**: the regenerated function completes, performs the specification's step, and the invariant is re-established -/
+theorem gcall_step (G : PGeo) (cbv : Nat) (hk : CbOk cbv) (g : GS) (st : St) (op : POp) (m : GMI G cbv g st) (hop : OpOk G op) :
+    ∃ st1, PCall G st op st1 ∧ GMI G cbv (g.runOp op) st1 := by
+  obtain ⟨X, hX, hXs, ho, hcb⟩ := m.obj
+  obtain ⟨XD, hD, hDs⟩ := m.out
+  obtain ⟨XI', hI, hIs, hIv⟩ := m.inp
+  have hltP : G.baseP + X.size < ptrBase := by rw [hXs]; exact G.hltP
+  have hltD : G.based + XD.size < ptrBase := by rw [hDs]; exact G.hltD
+  have hltI : G.basei + XI'.size < ptrBase := by rw [hIs]; exact G.hltI
+  have hmsz := m.msz
+  have hGsz := G.hsz
+  have hal4 : G.baseP % 4 = 0 := by have := G.hal; omega
+  cases op with
+  | gen n =>
+    have hn : n ≤ G.cap := hop
+    obtain ⟨k, sig, en, s, hx, hsig, hen, hent', hms1, ⟨Xp', g1, g2, g3, g4⟩, ⟨XD', d1, d2, _, _, _⟩, g5⟩ := prng_generate_call cbv hk
+      #[(0, .pub), (mkPtr G.bp G.baseP, .pub), (mkPtr G.bd (G.based + G.doff), .pub), (n, .pub)] st (.var 1) (.var 2) (.var 3) G.bp G.bd X XD G.baseP G.based G.doff n G.ud g
+      (by simp [evalE]) (by simp [evalE]) (by simp [evalE]) hX ho hcb m.ent hD G.hpd G.hal hltP hltD (by rw [hDs]; have := G.hin; omega) (by rw [hmsz]; exact hGsz)
+    subst hsig hen
+    obtain ⟨Z, hZ, hZs, hZv⟩ := keep_veq (g5 G.bi G.hpi G.hdi) hI
+    refine ⟨s, PCall.gen st s n k (by rw [callFun3]; exact hx),
+      ⟨⟨Xp', g1, g2.trans hXs, g3, g4⟩, ⟨XD', d1, d2.trans hDs⟩, ⟨Z, hZ, hZs.trans hIs, fun q => orel_trans (R := VEq) (fun _ _ _ a b => VEq.trans a b) (hZv q) (hIv q)⟩,
+        hent', hms1.trans hmsz⟩⟩
+  | feed d =>
+    obtain ⟨off, hd⟩ := hop
+    have hd' : BytesV XI' off d := bytesV_of_oveqI hIs hIv hd
+    obtain ⟨k, sig, en, s, hx, hsig, hen, hent', hms1, ⟨X', g1, g2, g3, g4⟩, g5⟩ := prng_feed_call
+      #[(0, .pub), (mkPtr G.bp G.baseP, .pub), (mkPtr G.bi (G.basei + off), .pub), (d.length, .pub)] st (.var 1) (.var 2) (.var 3) G.bp G.bi X XI' G.baseP G.basei off
+      (mkPtr G.bi (G.basei + off)) g.V g.C d g.rc g.rl (by simp [evalE]) (by simp [evalE]) (by simp [evalE]) hX ho hal4 hltP (Or.inr ⟨hI, hd', rfl, hltI⟩) G.hpi (by rw [hmsz]; omega)
+    subst hsig hen
+    obtain ⟨Z, hZ, hZs, hZv⟩ := keep_veq (g5 G.bi G.hpi) hI
+    obtain ⟨ZD, hZD, hZDs, _⟩ := keep_veq (g5 G.bd G.hpd.symm) hD
+    refine ⟨s, PCall.feed st s d off k (by rw [callFun3]; exact hx),
+      ⟨⟨X', g1, g2.trans hXs, g3, pcb_vle hcb (fun q hq => g4 q (by omega))⟩, ⟨ZD, hZD, hZDs.trans hDs⟩,
+        ⟨Z, hZ, hZs.trans hIs, fun q => orel_trans (R := VEq) (fun _ _ _ a b => VEq.trans a b) (hZv q) (hIv q)⟩, hent'.trans m.ent, hms1.trans hmsz⟩⟩
+  | reseed =>
+    obtain ⟨k, sig, en, s, hx, hsig, hen, hent', hms1, ⟨X', g1, g2, g3, g4⟩, g5⟩ := prng_reseed_call_ret cbv hk 0 #[(0, .pub), (mkPtr G.bp G.baseP, .pub)] st (.var 1) G.bp X G.baseP
+      g.V g.C g.rc g.rl G.ud .pub (by simp [evalE]) hX ho hcb.toV G.hal hltP (by rw [hmsz]; omega)
+    subst hsig
+    obtain ⟨Z, hZ, hZs, hZv⟩ := keep_veq (g5 G.bi G.hpi) hI
+    obtain ⟨ZD, hZD, hZDs, _⟩ := keep_veq (g5 G.bd G.hpd.symm) hD
+    refine ⟨s, PCall.reseed st s (if cbRet cbv (st.ent.headD ([], 0)) = 32 then 1 else 0) k ?_,
+      ⟨⟨X', g1, g2.trans hXs, by rw [m.ent] at g3; exact g3, pcb_vle hcb (fun q hq => g4 q (by omega))⟩, ⟨ZD, hZD, hZDs.trans hDs⟩,
+        ⟨Z, hZ, hZs.trans hIs, fun q => orel_trans (R := VEq) (fun _ _ _ a b => VEq.trans a b) (hZv q) (hIv q)⟩, by rw [hent', m.ent]; rfl, hms1.trans hmsz⟩⟩
+    unfold callFun
+    simp only [List.length_cons, List.length_nil, List.range, List.range.loop, List.map, if_true, Nat.zero_add]
+    rw [hx, hen]; rfl
+  | limit n =>
+    have hn : n < 18446744073709551616 := hop
+    have hbpN := mem_lt hX
+    obtain ⟨k, sig, en, s, hx, hsig, hen, hent', hm1, ho1⟩ := prng_set_limit_call #[(0, .pub), (mkPtr G.bp G.baseP, .pub), (n, .pub)] st (.var 1) (.var 2) G.bp X G.baseP n g.V g.C g.rc g.rl
+      (by simp [evalE]) (by simp [evalE]) hn hX ho hal4 hltP (by omega)
+    subst hsig hen
+    refine ⟨s, PCall.limit st s n k ?_,
+      ⟨⟨_, by rw [hm1, getElem?_setBlock', if_pos rfl, hX]; rfl, by rw [size_writeLE]; exact hXs, ho1,
+          pcb_vle hcb (fun q hq => by rw [getElem?_writeLE_out _ _ _ _ _ q (Or.inr (by omega))]; exact ovle_refl _)⟩,
+        ⟨XD, by rw [hm1, getElem?_setBlock', if_neg G.hpd.symm]; exact hD, hDs⟩, ⟨XI', by rw [hm1, getElem?_setBlock', if_neg G.hpi]; exact hI, hIs, hIv⟩,
+        hent'.trans m.ent, by rw [hm1, size_setBlock']; exact hmsz⟩⟩
+    unfold callFun
+    simp only [List.length_cons, List.length_nil, List.range, List.range.loop, List.map, Bool.false_eq_true, if_false, Nat.zero_add]
+    exact hx
+
+/-- **C17 on the regenerated source, for histories and for BOTH entropy sources**: with the user callback or with `tinyjambu_prng_system` stored in the object, every history of
+    generate / feed / reseed / set-limit calls on the regenerated code completes (no fault, whatever the source delivers — nothing, short, or 32 bytes) and leaves the state the
+    source-level specification `GS.runOps` prescribes, consuming exactly one delivery per reseed -/
+theorem history_source_either (G : PGeo) (cbv : Nat) (hk : CbOk cbv) (ops : List POp) : ∀ (g : GS) (st : St), GMI G cbv g st → (∀ op ∈ ops, OpOk G op) →
+    ∃ st', PRun G st ops st' ∧ GMI G cbv (g.runOps ops) st' := by
+  induction ops with
+  | nil => intro g st m _; exact ⟨st, PRun.nil st, m⟩
+  | cons op ops ih =>
+    intro g st m hok
+    obtain ⟨st1, hc1, m1⟩ := gcall_step G cbv hk g st op m (hok op (List.mem_cons_self ..))
+    obtain ⟨st2, hr2, m2⟩ := ih (g.runOp op) st1 m1 (fun o ho => hok o (List.mem_cons_of_mem _ ho))
+    exact ⟨st2, PRun.cons st st1 st2 op ops hc1 hr2, m2⟩
+
+/-- **`tinyjambu_prng_init` (the system source; also what a NULL callback selects, TJ.Props.C17Gen.init_user_null_source) followed by ANY history**: initialisation returns 1
+    exactly when the source reported success, and whatever it reported, every later call of every history completes on the regenerated code and follows `GS.runOps` -/
+theorem init_system_then_history (G : PGeo) (hud : G.ud = 0) (st : St) (X XD : Array LByte) (ioff : Nat) (custom : Bytes) (ops : List POp)
+    (hP : st.mem[G.bp]? = some ⟨X, G.baseP⟩) (hXs : X.size = G.xsz) (h96 : 96 ≤ G.xsz)
+    (hD : st.mem[G.bd]? = some ⟨XD, G.based⟩) (hDs : XD.size = G.dsz)
+    (hI : st.mem[G.bi]? = some ⟨G.XI, G.basei⟩) (hd : BytesV G.XI ioff custom) (hmsz : st.mem.size = G.msz) (hok : ∀ op ∈ ops, OpOk G op) :
+    ∃ (fuel : Nat) (st0 : St) (g0 : GS) (st' : St), callFun prog fuel idx_tinyjambu_prng_init true [(mkPtr G.bp G.baseP, .pub), (mkPtr G.bi (G.basei + ioff), .pub), (custom.length, .pub)] st =
+        .ok .normal #[(if (st.ent.headD ([], 0)).2 ≠ 0 then 1 else 0, .pub), (mkPtr G.bp G.baseP, .pub), (mkPtr G.bi (G.basei + ioff), .pub), (custom.length, .pub)] st0 ∧
+      g0.rc = 1 ∧ g0.rl = 32 ∧ g0.ent = st.ent.tail ∧
+      PRun G st0 ops st' ∧ GMI G sysCb (g0.runOps ops) st' := by
+  have hGsz := G.hsz
+  obtain ⟨fuel, st0, hrun, hent0, hms0, ⟨X0, hX0, hX0s, ho0, hcb0⟩, hoth0⟩ := TJ.Props.C17Gen.init_source st G.bp G.bi X G.XI G.baseP G.basei ioff custom hP (by rw [hXs]; exact h96) G.hal
+    (by rw [hXs]; exact G.hltP) hI hd G.hltI G.hpi (by rw [hmsz]; omega)
+  obtain ⟨Z, hZ, hZs, hZv⟩ := keep_veq (hoth0 G.bi G.hpi) hI
+  obtain ⟨ZD, hZD, hZDs, _⟩ := keep_veq (hoth0 G.bd G.hpd.symm) hD
+  have m0 : GMI G sysCb ⟨_, _, 1, 32, st0.ent⟩ st0 := ⟨⟨X0, hX0, hX0s.trans hXs, ho0, by rw [hud]; exact hcb0⟩, ⟨ZD, hZD, hZDs.trans hDs⟩, ⟨Z, hZ, hZs, hZv⟩, rfl, hms0.trans hmsz⟩
+  obtain ⟨st', hr, m'⟩ := history_source_either G sysCb (Or.inr rfl) ops _ st0 m0 hok
+  exact ⟨fuel, st0, _, st', hrun, rfl, rfl, hent0, hr, m'⟩
 
 end TJ.Props.C16Gen
